@@ -53,6 +53,12 @@ func genC02(t *rapid.T) Case {
 		at := rapid.IntRange(0, len(c.Ops)).Draw(t, "scAt")
 		c.Ops = append(c.Ops[:at:at], append(sc, c.Ops[at:]...)...)
 	}
+	// dozens of keys visible at once, written by autocommit callers or inside an open transaction
+	if rapid.IntRange(0, 7).Draw(t, "manyKeys") == 0 {
+		at := rapid.IntRange(0, len(c.Ops)).Draw(t, "manyAt")
+		bop := Op{K: "txburst", N: rapid.SampledFrom([]int{17, 21, 40, 100}).Draw(t, "manyN"), H: rapid.IntRange(0, 3).Draw(t, "manyActor")}
+		c.Ops = append(c.Ops[:at:at], append([]Op{bop}, c.Ops[at:]...)...)
+	}
 	return c
 }
 
